@@ -67,8 +67,8 @@ def _jobs(tier, seed):
     # consume_input = False (C17), acyclic grammars only
     acyc = [g for g in fam if not gen.cyclic(g["prods"], [t[0] for t in g["terms"]])]
     rng = random.Random(4343)
-    for g in acyc[: p["nprefix"]]:
-        jobs.append({"g": g, "inputs": _inputs_plain(g, p, rng), "tables": ["LALR"], "consume": False, "origin": "det", "variant": "prefix"})
+    for i, g in enumerate(acyc[: p["nprefix"]]):
+        jobs.append({"g": g, "inputs": _inputs_plain(g, p, rng), "tables": ["LALR"], "consume": False, "origin": "det", "variant": "prefix", "pretable": i % 3 == 2})
     # seeded random extension
     rng = random.Random(1000003 * (seed + 1))
     k = 0
